@@ -48,7 +48,14 @@ def privkey_pubkey(alg, sub):
             h.is_method = False
             ex.hooks[('ext:curve-oid', attr)] = h
         r.hook('pgpy.packet.fields.ECKDF', '__call__', lambda ex, st, c, a: [(st, E.VObj('pgpy.packet.fields.ECKDF', E.fresh('kdf')))])
-        # packet framework (headers) is outside this obligation
+        # packet framework: the public packet gets the header its own constructor makes (new format, tag 6 / 14: C09); the header of the
+        # SECRET packet - any format, tag 5 / 7 - is not carried over, neither the object nor a copy of it
+        HDRC = 'pgpy.packet.types.Header'
+        r.set('secret', 'header', E.VObj(HDRC, 'header-of-the-secret-packet'))
+        r.hook(HDRC, '__copy__', scn.method_hook(lambda ex, st, o, a: [(st, E.VObj(HDRC, 'copy-of-' + str(o.ref)))]))
+        for hattr in ('_tag', '_lenfmt', '_len', '_llen'):
+            for hobj in ('copy-of-header-of-the-secret-packet', 'header-of-the-secret-packet'):
+                r.set(hobj, hattr, E.VInt(z3.Int('secret_header_' + hattr.strip('_'))))
         r.hook('pgpy.packet.types.VersionedPacket', '__init__', scn.mconst(E.VNone()))
         r.hook('pgpy.packet.types.Packet', '__init__', scn.mconst(E.VNone()))
         r.hook('pgpy.packet.types.Packet', 'update_hlen', scn.mconst(E.VNone()))
@@ -63,6 +70,9 @@ def privkey_pubkey(alg, sub):
             r.oblige(s, 'is-a-public-%skey-packet/p%d' % ('sub' if sub else '', pi), z3.BoolVal(ok))
             if not ok:
                 continue
+            hv = s.heap.get((v.ref, 'header'))
+            r.oblige(s, 'header-is-the-public-packet\'s-own(not-the-secret-packet\'s,nor-a-copy-of-it)/p%d' % pi,
+                     z3.BoolVal(not (isinstance(hv, E.VObj) and 'header-of-the-secret-packet' in str(hv.ref))))
             pkm = s.heap.get((v.ref, 'keymaterial'))
             okm = isinstance(pkm, E.VObj) and pkm.cls == 'pgpy.packet.fields.%sPub' % name
             r.oblige(s, 'material-is-the-public-class-of-the-algorithm/p%d' % pi, z3.BoolVal(bool(okm)))
@@ -119,6 +129,14 @@ def privkey_pubkey_opaque(sub):
         r.set('skm', 's2k', E.VObj('pgpy.packet.fields.String2Key', 's2k'))
         r.set('skm', 'encbytes', ex.new_buf(st, z3.Const('SECRET_ENCBYTES', E.BYTES)))
         r.set('skm', 'chksum', ex.new_buf(st, z3.Const('SECRET_CHKSUM', E.BYTES)))
+        # packet framework: the public packet gets the header its own constructor makes (new format, tag 6 / 14: C09); the header of the
+        # SECRET packet - any format, tag 5 / 7 - is not carried over, neither the object nor a copy of it
+        HDRC = 'pgpy.packet.types.Header'
+        r.set('secret', 'header', E.VObj(HDRC, 'header-of-the-secret-packet'))
+        r.hook(HDRC, '__copy__', scn.method_hook(lambda ex, st, o, a: [(st, E.VObj(HDRC, 'copy-of-' + str(o.ref)))]))
+        for hattr in ('_tag', '_lenfmt', '_len', '_llen'):
+            for hobj in ('copy-of-header-of-the-secret-packet', 'header-of-the-secret-packet'):
+                r.set(hobj, hattr, E.VInt(z3.Int('secret_header_' + hattr.strip('_'))))
         r.hook('pgpy.packet.types.VersionedPacket', '__init__', scn.mconst(E.VNone()))
         r.hook('pgpy.packet.types.Packet', '__init__', scn.mconst(E.VNone()))
         r.hook('pgpy.packet.types.Packet', 'update_hlen', scn.mconst(E.VNone()))
@@ -132,6 +150,9 @@ def privkey_pubkey_opaque(sub):
             r.oblige(s, 'is-a-public-%skey-packet/p%d' % ('sub' if sub else '', pi), z3.BoolVal(ok))
             if not ok:
                 continue
+            hv = s.heap.get((v.ref, 'header'))
+            r.oblige(s, 'header-is-the-public-packet\'s-own(not-the-secret-packet\'s,nor-a-copy-of-it)/p%d' % pi,
+                     z3.BoolVal(not (isinstance(hv, E.VObj) and 'header-of-the-secret-packet' in str(hv.ref))))
             pkm = s.heap.get((v.ref, 'keymaterial'))
             okm = isinstance(pkm, E.VObj) and pkm.cls == 'pgpy.packet.fields.OpaquePubKey'
             r.oblige(s, 'material-is-the-opaque-public-class/p%d' % pi, z3.BoolVal(bool(okm)))
